@@ -362,6 +362,8 @@ def main(argv=None):
         f"exhaustive={exhaustive} wall={wall:.1f}s violations={n_unknown_total} "
         f"known={sorted(known_hit)}"
     )
+    if total.capped:
+        print("  caps hit:", total.capped, "| notes:", total.notes[:3])
     if total.skipped:
         print(f"WARNING: wall budget exhausted - {total.skipped} of {nshards} shards were NOT run "
               "(evidence says exhaustive=false); re-run with VERIF_BUDGET_S=<seconds> on a loaded machine")
